@@ -551,8 +551,11 @@ func c18GenGlue(rng *rand.Rand, tier string, add func(string)) {
 				if gz == 1 {
 					ks = []string{"0", "1", "9", "10", "12", "z/2", "z-9", "z-8", "z-1", "z"}
 				}
-				if fo == "fastq" && len(arr) == 3 {
-					ks = ks[:2]
+				if fo != "auto" && len(arr) > 0 { // the writers themselves on empty batches: a reduced sweep
+					ks = []string{"0", "z-1", "z"}
+					if gz == 1 {
+						ks = []string{"0", "10", "z-8", "z-1", "z"}
+					}
 				}
 				for _, k := range ks {
 					ws(fo, gz, k, 0, 1, rng.Intn(len(c18Kinds)), arr)
@@ -596,7 +599,7 @@ func c18GenGlue(rng *rand.Rand, tier string, add func(string)) {
 	}
 	n := 40
 	if tier == "thorough" {
-		n = 400
+		n = 150
 	}
 	for i := 0; i < n; i++ {
 		fo := fos[rng.Intn(4)]
